@@ -1,4 +1,7 @@
 import ScVerif.C15.Bounds
+import ScVerif.C15.Store
+import ScVerif.C15.Shape
+import ScVerif.C15.Changing
 /-!
 # C15 — Paged List RPCs enumerate every item exactly once
 
@@ -125,6 +128,109 @@ theorem C15_read_mask (v : Variant) (keys : List String) (hs : Sorted keys) (hne
       unfold Page.display
       cases keyVisible <;> simpa using a
 
+
+/-! ## Any collection contents: the collection layer supplies the hypotheses -/
+
+/-- **C15_listing_canonical.** Whatever sequence of create / ensure / update / delete operations built the
+collection (generated ids included, for ANY random candidates), the listing handed to the paging code is
+strictly ascending, holds no empty key, holds exactly the ids of the set-specification `IdSet.run`, and is the
+only strictly ascending list with those elements (so it does not matter which algorithm `sort.Slice` runs). -/
+theorem C15_listing_canonical (ops : List StoreOp) :
+    Sorted (listing (Store.run [] ops)) ∧ "" ∉ listing (Store.run [] ops) ∧
+    (∀ x, x ∈ listing (Store.run [] ops) ↔ IdSet.run (fun _ => false) ops x = true) ∧
+    (∀ l', Sorted l' → (∀ x, x ∈ l' ↔ x ∈ Store.run [] ops) → l' = listing (Store.run [] ops)) := by
+  have hi := Store.run_inv ops [] Store.inv_nil
+  have hr := Store.run_repr ops [] (fun _ => false) Store.inv_nil repr_nil
+  refine ⟨listing_sorted hi, listing_no_empty hi, ?_, ?_⟩
+  · intro x; rw [← hr x]; exact mem_sortKeys
+  · intro l' hs' hm
+    exact sorted_ext hs' (listing_sorted hi) (fun a => by rw [hm a]; exact mem_sortKeys.symm)
+
+/-- **C15_any_contents.** The enumeration theorem without hypotheses on the listing: for ANY history of the
+collection, from the empty token and whatever non-negative size each page asks for, the chain ends within
+`|items|+1` pages; the concatenated pages are the listing, hold no item twice and hold exactly the ids the
+set-specification says are present; every page respects its size bound and reports `total_size = |items|`. -/
+theorem C15_any_contents (v : Variant) (ops : List StoreOp) (size : Nat → Int) (hsz : ∀ i, 0 ≤ size i) :
+    ∃ pages, chain v (listing (Store.run [] ops)) size ((listing (Store.run [] ops)).length + 1) 0 .empty = some pages ∧
+      (pages.map (·.items)).flatten = listing (Store.run [] ops) ∧
+      ((pages.map (·.items)).flatten).Nodup ∧
+      (∀ x, x ∈ (pages.map (·.items)).flatten ↔ IdSet.run (fun _ => false) ops x = true) ∧
+      pages.length ≤ (Store.run [] ops).length + 1 ∧
+      ∀ j p, pages[j]? = some p →
+        (p.items.length : Int) ≤ allowed (size j) ∧ p.total = (Store.run [] ops).length := by
+  obtain ⟨hs, hne, hset, -⟩ := C15_listing_canonical ops
+  obtain ⟨pages, h1, h2, h3, h4⟩ := C15_enumerates v _ hs hne size hsz
+  have hl : (listing (Store.run [] ops)).length = (Store.run [] ops).length := length_sortKeys _
+  refine ⟨pages, h1, h2, by rw [h2]; exact sorted_nodup hs, by rw [h2]; exact hset, by omega, ?_⟩
+  intro j p hp
+  rw [← hl]
+  exact h4 j p hp
+
+/-- **C15_any_token_any_contents.** For ANY history of the collection and a token decoding to ANY key (an id
+since deleted, never present, garbage): the chain ends and returns exactly the present ids greater than the key. -/
+theorem C15_any_token_any_contents (v : Variant) (ops : List StoreOp) (size : Nat → Int) (hsz : ∀ i, 0 ≤ size i)
+    (k : String) (hk : k ≠ "") :
+    ∃ pages, chain v (listing (Store.run [] ops)) size ((listing (Store.run [] ops)).length + 1) 0 (.key k) = some pages ∧
+      pages.length ≤ (Store.run [] ops).length + 1 ∧
+      Sorted ((pages.map (·.items)).flatten) ∧
+      ∀ x, x ∈ (pages.map (·.items)).flatten ↔ (IdSet.run (fun _ => false) ops x = true ∧ k < x) := by
+  obtain ⟨hs, hne, hset, -⟩ := C15_listing_canonical ops
+  obtain ⟨pages, h1, h2, -, h3, -⟩ := C15_any_token v _ hs hne size hsz k
+  have hl : (listing (Store.run [] ops)).length = (Store.run [] ops).length := length_sortKeys _
+  have haf : after (listing (Store.run [] ops)) k = (listing (Store.run [] ops)).filter (fun x => decide (k < x)) := by
+    simp [after, hk]
+  refine ⟨pages, h1, by omega, ?_, ?_⟩
+  · rw [h2, haf]; exact List.Pairwise.sublist List.filter_sublist hs
+  · intro x
+    rw [h2, haf, List.mem_filter, hset x]
+    simp
+
+/-- **C15_page_shape.** The exact answer sequence when every page asks for the same size `sz ≥ 0`
+(`c = min (sz or 50) 1000`), for ANY history of the collection with `n` items: exactly `n / c + 1` pages;
+page `j` is items `j·c … (j+1)·c - 1` of the listing; only the last page has an empty next_page_token — so
+when `n` is a positive multiple of `c` the chain ends with one EMPTY page (still reporting `total_size = n`) —
+and every page reports `total_size = n`. -/
+theorem C15_page_shape (v : Variant) (ops : List StoreOp) (sz : Int) (hsz : 0 ≤ sz) :
+    ∃ pages, chain v (listing (Store.run [] ops)) (fun _ => sz) ((listing (Store.run [] ops)).length + 1) 0 .empty = some pages ∧
+      pages.length = (Store.run [] ops).length / (capPageSize sz).toNat + 1 ∧
+      ∀ j p, pages[j]? = some p →
+        p.items = ((listing (Store.run [] ops)).drop (j * (capPageSize sz).toNat)).take (capPageSize sz).toNat ∧
+        (p.next = none ↔ j + 1 = pages.length) ∧ p.total = (Store.run [] ops).length := by
+  obtain ⟨hs, hne, -, -⟩ := C15_listing_canonical ops
+  have hl : (listing (Store.run [] ops)).length = (Store.run [] ops).length := length_sortKeys _
+  have h0 : nextIndex v (listing (Store.run [] ops)) (lastKeyOf .empty) = 0 := by simp [nextIndex, lastKeyOf]
+  obtain ⟨pages, h1, h2, h3⟩ := chain_shape v hs hne sz hsz ((listing (Store.run [] ops)).length + 1) 0 .empty
+    (by simp) (by omega)
+  rw [h0] at h2 h3
+  refine ⟨pages, h1, by rw [h2, hl]; simp, ?_⟩
+  intro j p hp
+  obtain ⟨a, b, c⟩ := h3 j p hp
+  exact ⟨by simpa using a, b, by rw [c, hl]⟩
+
+/-! ## Beyond the property: contents that change between pages -/
+
+/-- **C15_changing_contents.** The property holds the contents fixed while paging; this is what remains true
+when they are NOT: page `j` of the chain is served from an arbitrary listing `ks j` (each strictly ascending,
+no empty key — `C15_listing_canonical`), any ids may be inserted or deleted between pages.  Whenever the chain
+reaches the empty token, the concatenated pages are strictly ascending — no item is ever returned twice — and
+every id that was present at every page of the chain is returned (exactly once).  (A token whose key has been
+deleted is just `C15_any_token`.) -/
+theorem C15_changing_contents (v : Variant) (ks : Nat → List String) (hs : ∀ j, Sorted (ks j))
+    (hne : ∀ j, "" ∉ ks j) (size : Nat → Int) (hsz : ∀ j, 0 ≤ size j) (fuel : Nat) (pages : List Page)
+    (h : chainVar v ks size fuel 0 .empty = some pages) :
+    Sorted ((pages.map (·.items)).flatten) ∧ ((pages.map (·.items)).flatten).Nodup ∧
+    ∀ x, (∀ j, j < pages.length → x ∈ ks j) →
+      x ∈ (pages.map (·.items)).flatten ∧ ((pages.map (·.items)).flatten).count x = 1 := by
+  obtain ⟨-, h2, h3⟩ := chainVar_facts v ks hs hne size hsz fuel 0 .empty pages (by simp) h
+  have hnd := sorted_nodup h2
+  refine ⟨h2, hnd, ?_⟩
+  intro x hx
+  have hpos := chainVar_ne_nil v ks size fuel 0 .empty pages h
+  have hx0 : x ∈ ks 0 := hx 0 hpos
+  have hxne : x ≠ "" := fun e => hne 0 (e ▸ hx0)
+  have hmem := h3 x (by simpa [lastKeyOf] using empty_lt hxne) (fun j hj => by simpa using hx j hj)
+  exact ⟨hmem, by rw [hnd.count]; simp [hmem]⟩
+
 /-! ## waste: ListWasteRecords (index tokens) -/
 
 /-- **C15_waste (enumerates).** Over `n` records the chain from the empty token reaches the empty token
@@ -186,6 +292,39 @@ theorem C15_waste_errors (n : Nat) (tok : WTok) (size : Int) :
     · exact ⟨.invalidArgument, by simp [listWaste, hr]⟩
     · exact ⟨.invalidArgument, by simp [listWaste, hr, h]⟩
 
+/-- **C15_waste (page shape).** One page size `sz ≥ 0` throughout (`c = min (sz or 50) 1000`) over `n` records:
+exactly `(n-1)/c + 1` pages (one page for an empty model; NO trailing empty page: the token is dropped when a
+page reaches the oldest record), page `j` holds records `n - j·c - 1` downwards, only the last page has no
+token, every page reports `total_size = n`. -/
+theorem C15_waste_page_shape (n : Nat) (sz : Int) (hsz : 0 ≤ sz) :
+    ∃ pages, wasteChain n (fun _ => sz) (n + 1) 0 .empty = some pages ∧
+      pages.length = (n - 1) / (wasteCount sz).toNat + 1 ∧
+      ∀ j p, pages[j]? = some p →
+        p.items = down (n - j * (wasteCount sz).toNat) (wasteCount sz).toNat ∧
+        (p.next = none ↔ j + 1 = pages.length) ∧ p.total = n := by
+  obtain ⟨pages, h1, h2, h3⟩ := wasteChain_shape n sz hsz (n + 1) 0 n (Nat.le_refl _) (by omega)
+  exact ⟨pages, by rw [wasteChain_empty, h1], h2, h3⟩
+
+/-- **C15_waste (read mask).** With ANY read mask ListWasteRecords never panics and returns the same token,
+total and number of records as without one (the records themselves when the id is visible). -/
+theorem C15_waste_read_mask (n : Nat) (tok : WTok) (size : Int) (idVisible : Bool) :
+    listWasteMasked n tok size idVisible ≠ .panic ∧
+    (∀ c, listWaste n tok size = .err c → listWasteMasked n tok size idVisible = .err c) ∧
+    ∀ p, listWaste n tok size = .ok p → ∃ q, listWasteMasked n tok size idVisible = .ok q ∧
+      q.next = p.next ∧ q.total = p.total ∧ q.items.length = p.items.length ∧
+      (idVisible = true → q.items = p.items.map some) := by
+  have hnp := C15_waste_no_panic n tok size
+  unfold listWasteMasked
+  cases h : listWaste n tok size with
+  | panic => exact absurd h hnp
+  | err c => simp
+  | ok p =>
+    refine ⟨by simp, by simp, ?_⟩
+    intro p' hp
+    cases hp
+    refine ⟨_, rfl, rfl, rfl, by simp [WPage.display], ?_⟩
+    intro hv; subst hv; simp [WPage.display]
+
 /-! ## Non-vacuity and the repaired defects -/
 
 /-- The hypotheses are satisfiable by a reachable listing (ids that are prefixes of each other). -/
@@ -196,6 +335,21 @@ example : Sorted ["a", "a/", "ab", "b"] ∧ "" ∉ ["a", "a/", "ab", "b"] := by
 /-- The model computes what the theorem says on that listing (page size 3 then 1). -/
 example : (chain .gt ["a", "a/", "ab", "b"] (fun i => if i = 0 then 3 else 1) 5 0 .empty).map (·.map (·.items))
     = some [["a", "a/", "ab"], ["b"], []] := by decide
+
+/-- A history with generated ids, a duplicate, an update and a delete; the listing and a three-page chain. -/
+example : listing (Store.run [] [.add "b" (fun _ => ""), .add "" (fun i => if i = 0 then "" else if i = 1 then "b" else "gen"),
+      .add "b" (fun _ => ""), .ensure "a", .ensure "", .update "zz", .add "c" (fun _ => ""), .delete "c"]) = ["a", "b", "gen"] ∧
+    (chain .gt ["a", "b", "gen"] (fun _ => 1) 4 0 .empty).map (·.map (·.items)) = some [["a"], ["b"], ["gen"], []] := by
+  decide
+
+/-- Changing contents: "b" is deleted and "ab", "z" are inserted after page 0, "c" is inserted behind the
+token after page 1: nothing comes twice, and "a", "d" (present throughout) are returned. -/
+example : (chainVar .gt (fun j => if j = 0 then ["a", "b", "d"] else if j = 1 then ["a", "ab", "d", "z"] else ["a", "ab", "c", "d", "z"])
+      (fun _ => 1) 6 0 .empty).map (·.map (·.items)) = some [["a"], ["ab"], ["c"], ["d"], ["z"], []] := by decide
+
+/-- The trailing empty page of `C15_page_shape` (2 items, page size 2) and its absence for waste. -/
+example : chain .ge ["a", "b"] (fun _ => 2) 3 0 .empty = some [⟨["a", "b"], some "b", 2⟩, ⟨[], none, 2⟩] ∧
+    wasteChain 2 (fun _ => 2) 3 0 .empty = some [⟨[1, 0], none, 2⟩] := by decide
 
 /-- The hypothesis `"" ∉ keys` is needed: with an item whose key is empty, a one-item first page mints a
 token whose last key is "" and the listing restarts for ever (no creation API can produce such an item;
